@@ -214,7 +214,7 @@ static RESULT: AtomicU32 = AtomicU32::new(0);
 
 /// read with timeout `d_ns`, the peer writes at virtual time `at_ns` (0 = never).
 /// `ops`: number of reads on the same socket (2 = stale timer case); the peer writes one byte per op
-fn read_timeout(e: &'static Engine, workers: usize, d_ns: u64, at_ns: &'static [u64]) {
+fn read_timeout(e: &'static Engine, workers: usize, d_ns: u64, at_ns: &'static [u64], reader_delay_ns: u64) {
     rt_init(workers);
     let (mut a, mut b) = UnixStream::pair().unwrap();
     b.set_read_timeout(Some(Duration::from_nanos(d_ns))).unwrap();
@@ -223,6 +223,10 @@ fn read_timeout(e: &'static Engine, workers: usize, d_ns: u64, at_ns: &'static [
     let r2 = results.clone();
     let n = at_ns.len();
     let rd = go!(move || {
+        if reader_delay_ns != 0 {
+            // the first read starts at the very moment the data arrives: the readiness edge races with subscribe
+            coroutine::sleep(Duration::from_nanos(reader_delay_ns));
+        }
         for _ in 0..n {
             let mut buf = [0u8; 4];
             let t0 = may::verif::now();
@@ -270,7 +274,8 @@ fn read_timeout(e: &'static Engine, workers: usize, d_ns: u64, at_ns: &'static [
             // the i-th read gets the next unread byte if it arrives before its own deadline
             if k < at_ns.len() && at_ns[k] != 0 {
                 let arrival = at_ns[k];
-                let rel_start = *t0 - res[0].1;
+                // relative to the start of the window (the first read starts after `reader_delay_ns`)
+                let rel_start = *t0 - res[0].1 + reader_delay_ns;
                 if arrival + MS < rel_start + d_ns && !*got {
                     e.fail("data_missed", &format!("read {} started at {} ns with timeout {} ns reported TimedOut although data arrived at {} ns", i, rel_start, d_ns, arrival));
                 }
@@ -390,13 +395,14 @@ pub fn build_c18(quick: bool) -> Vec<Scenario> {
     let p = "C18";
     for w in [1usize, 2] {
         for d in [500_000u64, MS, 3 * MS / 2] {
-            v.push(Scenario::new(p, "read_timeout", format!("read_timeout.{}ns.never.w{}", d, w), Arc::new(move |e| read_timeout(e, w, d, &[0]))).t2());
+            v.push(Scenario::new(p, "read_timeout", format!("read_timeout.{}ns.never.w{}", d, w), Arc::new(move |e| read_timeout(e, w, d, &[0], 0))).t2());
         }
-        v.push(Scenario::new(p, "read_timeout", format!("read_timeout.2ms.data_at_1ms.w{}", w), Arc::new(move |e| read_timeout(e, w, 2 * MS, &[MS]))).t2());
-        v.push(Scenario::new(p, "read_timeout", format!("read_timeout.1ms.data_at_3ms.w{}", w), Arc::new(move |e| read_timeout(e, w, MS, &[3 * MS]))).t2());
+        v.push(Scenario::new(p, "read_timeout", format!("read_timeout.2ms.data_at_1ms.w{}", w), Arc::new(move |e| read_timeout(e, w, 2 * MS, &[MS], 0))).t2());
+        v.push(Scenario::new(p, "read_timeout", format!("read_timeout.1ms.data_at_3ms.w{}", w), Arc::new(move |e| read_timeout(e, w, MS, &[3 * MS], 0))).t2());
         // two operations on one socket: the first completes early, the second must not inherit its timer
-        v.push(Scenario::new(p, "stale_timer", format!("read_timeout.2ms.early_then_never.w{}", w), Arc::new(move |e| read_timeout(e, w, 2 * MS, &[MS / 2, 0]))).t2());
-        v.push(Scenario::new(p, "stale_timer", format!("read_timeout.2ms.never_then_data.w{}", w), Arc::new(move |e| read_timeout(e, w, 2 * MS, &[0, 3 * MS]))).t2());
+        v.push(Scenario::new(p, "stale_timer", format!("read_timeout.2ms.early_then_never.w{}", w), Arc::new(move |e| read_timeout(e, w, 2 * MS, &[MS / 2, 0], 0))).t2());
+        v.push(Scenario::new(p, "stale_timer", format!("read_timeout.2ms.never_then_data.w{}", w), Arc::new(move |e| read_timeout(e, w, 2 * MS, &[0, 3 * MS], 0))).t2());
+        v.push(Scenario::new(p, "stale_timer", format!("read_timeout.2ms.read_meets_data_then_never.w{}", w), Arc::new(move |e| read_timeout(e, w, 2 * MS, &[MS / 2, 0], MS / 2))).t2());
         for what in [Blocked::Read, Blocked::Accept, Blocked::UdpRecv] {
             v.push(Scenario::new(p, "cancel_io", format!("cancel_io.{:?}.w{}", what, w).to_lowercase(), Arc::new(move |e| cancel_io(e, w, what))));
         }
